@@ -861,7 +861,8 @@ def dump_one(f: TextIO, data: IOData):
     f.write("[GTO]\n")
     last_icenter = -1
     # The shells must be sorted by center.
-    for shell in sorted(obasis.shells, key=(lambda s: s.icenter)):
+    shell_order = sorted(range(len(obasis.shells)), key=(lambda i: obasis.shells[i].icenter))
+    for shell in (obasis.shells[i] for i in shell_order):
         if shell.icenter != last_icenter:
             if last_icenter != -1:
                 f.write("\n")
@@ -877,6 +878,11 @@ def dump_one(f: TextIO, data: IOData):
 
     # Get the permutation to convert the orbital coefficients to Molden conventions.
     permutation, signs = convert_conventions(obasis, CONVENTIONS)
+    # The basis functions follow the shells, which were written sorted by center.
+    offsets = np.cumsum([0] + [shell.nbasis for shell in obasis.shells])
+    shell_perm = np.concatenate([np.arange(offsets[i], offsets[i + 1]) for i in shell_order])
+    permutation = permutation[shell_perm]
+    signs = signs[shell_perm]
 
     # Print the mean-field orbitals
     if data.mo.kind == "unrestricted":
